@@ -110,6 +110,30 @@ func TestVerifE7Latency(t *testing.T) {
 		emit("fresh", d)
 		emit("first", d)
 	}
+	// values, not shapes (floats are outside the model): a latency value near the top of float64 overflows Add's
+	// `delta * count` to +Inf, which encoding/json refuses to encode - the handler answers 500 (audit 7, C6)
+	for _, v := range []string{"1500000", "1.7e308"} {
+		impl := func() (out string) {
+			defer func() {
+				if r := recover(); r != nil {
+					out = fmt.Sprintf("panic %v", r)
+				}
+			}()
+			var c clusterinfo.ChannelStats
+			js := `{"channel_name":"c","e2e_processing_latency":{"count":2,"percentiles":[{"quantile":0.99,"value":` + v + `}]}}`
+			if err := json.Unmarshal([]byte(js), &c); err != nil {
+				return "decode-error"
+			}
+			agg := &clusterinfo.ChannelStats{ChannelName: "c"}
+			agg.Add(&c)
+			if _, err := json.Marshal(agg); err != nil {
+				return "marshal-error " + strings.ReplaceAll(err.Error(), " ", "_")
+			}
+			return "marshal-ok"
+		}()
+		out.Case("latval "+v+" 2", impl)
+		hist["latval:"+strings.Fields(impl)[0]]++
+	}
 	n := vfEnvInt("VERIF_N", 300)
 	for i := 0; i < n; i++ {
 		var docs [][]int
